@@ -1195,3 +1195,276 @@ func init() {
 		Gen:  c10RepeatAfterFault,
 	})
 }
+
+// ---------------------------------------------------------------------------------------
+// (f) delivery-kinds: the result depends on the input BYTES, not on the kind of file they come
+// through. The same bytes reach the real binary as a regular file, as a named pipe (FIFO: everything
+// before the binary reads, everything after it has started, a part before and the rest after), as /dev/stdin named on the command line with
+// stdin a pipe / a regular file / a pipe fed in two parts, as standard input without a name (pipe,
+// regular file, socket), as one of two or three named inputs (before and after a regular file), and
+// -- for the bytes the kernel itself serves -- as a file below /proc/sys (stat size 0, content
+// not empty) against a regular file with the same content, /dev/null against an empty file. Inputs:
+// JSONL of records, one array, scalars, nothing, white space, truncated and malformed text, 5 000
+// and 70 000 bytes (more than a pipe holds); with and without -o (- and a path), -f, -r. All
+// deliveries of one scenario are one Group on exit status, stdout, diagnostic present, -o file; each
+// is also compared with the model (which sees the same bytes in a plain file of that name).
+// A reader that trusts the stat size, the first read, or seeks, gives different answers.
+// ---------------------------------------------------------------------------------------
+
+// every program prints in BEGIN: the binary opens all its inputs before it runs anything, so once
+// that line is out the harness knows the named pipe has a reader and may close its own end
+var c10DeliveryProgs = []string{
+	"BEGIN { n = 0; print \"start\" } { n++; print $.name, $.v } END { print \"records\", n }",
+	"BEGIN { print \"start\" } { print $index, $ }",
+	"BEGIN { print \"start\" } BEGINFILE { print \"bf\" } { s += $.v; print json($) } ENDFILE { print \"ef\", s }",
+	"BEGIN { print \"start\" } { $.seen = true; n++ } END { print n }",
+	"BEGIN { print \"start\" } $.v > 1 { print $.name } END { print \"done\" }",
+	"BEGIN { print \"start\" } { print }",
+}
+
+func c10DeliveryData(r *rand.Rand, kind int) (string, []byte) {
+	rec := func(i int) string {
+		return fmt.Sprintf(`{"name":"%s%d","v":%d}`, string(rune('a'+i%26)), i, i%7+1)
+	}
+	big := func(target int, jsonl bool) []byte {
+		var sb strings.Builder
+		if !jsonl {
+			sb.WriteString("[")
+		}
+		for i := 0; sb.Len() < target; i++ {
+			if i > 0 {
+				if jsonl {
+					sb.WriteString("\n")
+				} else {
+					sb.WriteString(",")
+				}
+			}
+			sb.WriteString(rec(i))
+		}
+		if jsonl {
+			sb.WriteString("\n")
+		} else {
+			sb.WriteString("]\n")
+		}
+		return []byte(sb.String())
+	}
+	switch kind {
+	case 0:
+		return "three records, one per line", []byte(rec(0) + "\n" + rec(1) + "\n" + rec(2) + "\n")
+	case 1:
+		return "one array of records", []byte("[" + rec(0) + "," + rec(1) + ", " + rec(2) + "]")
+	case 2:
+		return "one record, no final newline", []byte(rec(3))
+	case 3:
+		return "nothing", nil
+	case 4:
+		return "white space only", []byte(" \n\t\n")
+	case 5:
+		return "truncated array", []byte("[" + rec(0) + "," + rec(1) + ",")
+	case 6:
+		return "records then a stray byte", []byte(rec(0) + "\n" + rec(1) + "\n}" + rec(2) + "\n")
+	case 7:
+		return "scalars", []byte("1 \"two\" null\n[3]\n")
+	case 8:
+		return "an array of about 5 000 bytes (more than one read of the decoder)", big(5000+r.Intn(300), false)
+	case 9:
+		return "JSONL of about 70 000 bytes (more than a pipe holds)", big(70000+r.Intn(3000), true)
+	case 10:
+		return "one byte", []byte("7")
+	default:
+		return "an array of about 300 000 bytes, truncated at the end", append(big(300000+r.Intn(999), false)[:300000], '"')
+	}
+}
+
+func c10DeliveryKinds(r *rand.Rand, tier string, emit func(Case)) {
+	if os.Getenv("JQAWK_BIN") == "" {
+		emit(Case{ID: "no-binary", Req: "cli - - - -", ImplOnly: true, Oracle: c14Basic,
+			Meta: map[string]string{"problem": "env JQAWK_BIN is not set; this family runs the real binary"}})
+		return
+	}
+	gf := []string{"exit", "out", "err", "ofile", "ofexists"}
+	withFlags := func(req string, flags ...string) string {
+		for _, f := range flags {
+			if f == "" {
+				continue
+			}
+			if strings.HasSuffix(req, " -") {
+				req = strings.TrimSuffix(req, "-") + f
+			} else {
+				req += "," + f
+			}
+		}
+		return req
+	}
+	rounds := tierN(tier, 2, 14)
+	scen := 0
+	for round := 0; round < rounds; round++ {
+		nKinds := 11
+		if tier == "thorough" && round%5 == 0 {
+			nKinds = 12
+		}
+		for kind := 0; kind < nKinds; kind++ {
+			scen++
+			what, data := c10DeliveryData(r, kind)
+			prog := c10DeliveryProgs[(scen+round)%len(c10DeliveryProgs)]
+			var flags []string
+			ofile, oflag := "", ""
+			switch (scen + round*2) % 4 {
+			case 1:
+				flags = append(flags, "-o", "-")
+			case 2:
+				ofile = "out.json"
+				flags = append(flags, "-o", ofile)
+				oflag = "o=" + hxs(ofile)
+			}
+			if chance(r, 0.25) {
+				flags = append(flags, "-r", pick(r, []string{"$", "[$]", "$.v"}))
+			}
+			var disk0 []CliFile
+			viaF := chance(r, 0.3)
+			if viaF {
+				flags = append(flags, "-f", "prog.jqawk")
+				disk0 = append(disk0, CliFile{Name: "prog.jqawk", Data: []byte(prog)})
+			}
+			// argument list with the input under the given names
+			argv := func(names ...string) []string {
+				a := append([]string{}, flags...)
+				if !viaF {
+					a = append(a, prog)
+				}
+				return append(a, names...)
+			}
+			disk := func(fs ...CliFile) []CliFile { return append(append([]CliFile{}, disk0...), fs...) }
+			g := fmt.Sprintf("deliver-%d", scen)
+			n := 0
+			add := func(how, req, modelReq string) {
+				n++
+				c := Case{ID: fmt.Sprintf("%s/%d", g, n), Req: req, Fields: c14CliFields, Group: g, GroupFields: gf, Oracle: c14Basic, NonTrivial: c14NT,
+					Meta: metaProg(prog, "flags", strings.Join(flags, " "), "input", what+" ("+fmt.Sprint(len(data))+" bytes): "+short(strconv.Quote(string(data))), "delivery", how, "row", how, "col", what)}
+				if modelReq != req {
+					c.ModelReq = modelReq
+				}
+				if len(data) > 100000 {
+					c.ImplOnly = true
+				}
+				emit(c)
+			}
+			cut := 0
+			if len(data) > 0 {
+				cut = 1 + r.Intn(len(data))
+				if chance(r, 0.3) && len(data) > 4 {
+					cut = 1 + r.Intn(4)
+				}
+			}
+			// single input
+			plain := CliReq(argv("in.json"), nil, false, disk(CliFile{Name: "in.json", Data: data}), ofile)
+			add("regular file in.json", plain, plain)
+			// a named pipe keeps its bytes only while somebody has it open: the harness writes the first
+			// part, waits for the program's BEGIN line (w=1: the binary has opened its inputs by then),
+			// writes the rest and closes
+			fifo := func(first, rest []byte) string {
+				return withFlags(CliStagedReq(argv("in.json"), "fifo", nil, nil, disk(CliFile{Name: "in.json", Fifo: true, Data: first, Rest: rest}), 1), oflag)
+			}
+			add("named pipe in.json, everything written before the binary reads", fifo(data, nil), plain)
+			if len(data) > 0 {
+				add("named pipe in.json, everything written once the binary has started", fifo(nil, data), plain)
+			}
+			if len(data) > 1 {
+				add(fmt.Sprintf("named pipe in.json, %d bytes, then (once the binary has started) the rest", cut), fifo(data[:cut], data[cut:]), plain)
+			}
+			devModel := CliReq(argv("/dev/stdin"), nil, false, disk(CliFile{Name: "/dev/stdin", Data: data}), ofile)
+			add("/dev/stdin named, stdin is a pipe", CliReq(argv("/dev/stdin"), data, true, disk(), ofile), devModel)
+			add("/dev/stdin named, stdin is a regular file", CliStdinKindReq(argv("/dev/stdin"), data, "file", disk(), ofile), devModel)
+			if len(data) > 1 && kind%2 == round%2 {
+				add(fmt.Sprintf("/dev/stdin named, stdin is a pipe fed with %d bytes, a pause of 40 ms, the rest", cut),
+					withFlags(CliStagedReq(argv("/dev/stdin"), "stdin", data[:cut], data[cut:], disk(), 1<<30), oflag, "d=40"), devModel)
+			}
+			stdinModel := CliReq(argv(), data, true, disk(), ofile)
+			add("standard input without a name, a pipe", stdinModel, stdinModel)
+			add("standard input without a name, a regular file", CliStdinKindReq(argv(), data, "file", disk(), ofile), stdinModel)
+			add("standard input without a name, a socket", CliStdinKindReq(argv(), data, "socket", disk(), ofile), stdinModel)
+			if len(data) == 0 {
+				add("/dev/null named", CliReq(argv("/dev/null"), nil, false, disk(), ofile), CliReq(argv("/dev/null"), nil, false, disk(CliFile{Name: "/dev/null"}), ofile))
+				add("standard input is /dev/null", CliStdinKindReq(argv(), nil, "null", disk(), ofile), stdinModel)
+			}
+			// one of several inputs: -o then fails whatever the delivery, and must fail the same way
+			if kind%2 == 0 || tier == "thorough" {
+				other := CliFile{Name: "other.json", Data: []byte("[{\"name\":\"o\",\"v\":9}]\n")}
+				for pos := 0; pos < 2; pos++ {
+					g2 := fmt.Sprintf("%s-with-other-%d", g, pos)
+					names := func(x string) []string {
+						if pos == 0 {
+							return []string{x, "other.json"}
+						}
+						return []string{"other.json", x}
+					}
+					k := 0
+					add2 := func(how, req, modelReq string) {
+						k++
+						c := Case{ID: fmt.Sprintf("%s/%d", g2, k), Req: req, Fields: c14CliFields, Group: g2, GroupFields: gf, Oracle: c14Basic, NonTrivial: c14NT, ImplOnly: len(data) > 100000,
+							Meta: metaProg(prog, "flags", strings.Join(flags, " "), "arguments", strings.Join(names("X"), " "), "input X", what+": "+short(strconv.Quote(string(data))), "delivery of X", how, "row", how+" among several inputs", "col", what)}
+						if modelReq != req {
+							c.ModelReq = modelReq
+						}
+						emit(c)
+					}
+					p2 := CliReq(argv(names("in.json")...), nil, false, disk(other, CliFile{Name: "in.json", Data: data}), ofile)
+					add2("regular file", p2, p2)
+					add2("named pipe, one write", withFlags(CliStagedReq(argv(names("in.json")...), "fifo", nil, nil, disk(other, CliFile{Name: "in.json", Fifo: true, Data: data}), 1), oflag), p2)
+					if len(data) > 1 {
+						add2("named pipe, two writes", withFlags(CliStagedReq(argv(names("in.json")...), "fifo", nil, nil, disk(other, CliFile{Name: "in.json", Fifo: true, Data: data[:cut], Rest: data[cut:]}), 1), oflag), p2)
+					}
+					d2 := CliReq(argv(names("/dev/stdin")...), nil, false, disk(other, CliFile{Name: "/dev/stdin", Data: data}), ofile)
+					add2("/dev/stdin, a pipe", CliReq(argv(names("/dev/stdin")...), data, true, disk(other), ofile), d2)
+					add2("/dev/stdin, a regular file", CliStdinKindReq(argv(names("/dev/stdin")...), data, "file", disk(other), ofile), d2)
+				}
+			}
+		}
+		// $file is the name given on the command line, whatever is behind it
+		{
+			scen++
+			_, data := c10DeliveryData(r, round%3)
+			prog := "BEGIN { print \"start\" } BEGINFILE { print \"file\", $file } { print $file, $index, $ } ENDFILE { print \"end\", $file }"
+			g := fmt.Sprintf("deliver-%d-same-name", scen)
+			plain := CliReq([]string{prog, "in.json"}, nil, false, []CliFile{{Name: "in.json", Data: data}}, "")
+			meta := func(how string) map[string]string {
+				return metaProg(prog, "input", strconv.Quote(string(data)), "delivery", how, "row", how, "col", "$file printed")
+			}
+			cut := 1 + r.Intn(len(data)-1)
+			emit(Case{ID: g + "/file", Req: plain, Fields: c14CliFields, Group: g, GroupFields: gf, Oracle: c14Basic, NonTrivial: c14NT, Meta: meta("regular file in.json")})
+			emit(Case{ID: g + "/fifo", Req: CliStagedReq([]string{prog, "in.json"}, "fifo", nil, nil, []CliFile{{Name: "in.json", Fifo: true, Data: data[:cut], Rest: data[cut:]}}, 1), ModelReq: plain,
+				Fields: c14CliFields, Group: g, GroupFields: gf, Oracle: c14Basic, NonTrivial: c14NT, Meta: meta("named pipe in.json, two writes")})
+		}
+		// files whose content the kernel makes up when they are read: stat says 0 bytes, a read gives
+		// a number and a newline (a JSON document). The regular file holds what was read just now.
+		for pi, path := range []string{"/proc/sys/kernel/pid_max", "/proc/sys/kernel/ngroups_max", "/proc/sys/fs/file-max", "/proc/sys/kernel/threads-max"} {
+			content, err := os.ReadFile(path)
+			if err != nil || len(content) == 0 || len(content) > 64 || (pi+round)%2 == 1 && tier != "thorough" {
+				continue
+			}
+			scen++
+			prog := pick(r, []string{"{ print \"value\", $ } END { print \"end\" }", "{ n++; print $ + 1 } ENDFILE { print n }", "{ print }"})
+			ofile, oargs := "", []string{}
+			if chance(r, 0.5) {
+				ofile, oargs = "out.json", []string{"-o", "out.json"}
+			}
+			g := fmt.Sprintf("deliver-%d-procfs", scen)
+			meta := func(how string) map[string]string {
+				return metaProg(prog, "input", strconv.Quote(string(content)), "delivery", how, "row", how, "col", "kernel-made content")
+			}
+			plain := CliReq(append(append([]string{}, oargs...), prog, "copy.txt"), nil, false, []CliFile{{Name: "copy.txt", Data: content}}, ofile)
+			emit(Case{ID: g + "/copy", Req: plain, Fields: c14CliFields, Group: g, GroupFields: gf, Oracle: c14Basic, NonTrivial: c14NT, Meta: meta("regular file with the same bytes")})
+			emit(Case{ID: g + "/proc", Req: CliReq(append(append([]string{}, oargs...), prog, path), nil, false, nil, ofile),
+				ModelReq: CliReq(append(append([]string{}, oargs...), prog, path), nil, false, []CliFile{{Name: path, Data: content}}, ofile),
+				Fields:   c14CliFields, Group: g, GroupFields: gf, Oracle: c14Basic, NonTrivial: c14NT, Meta: meta(path + " (stat size 0)")})
+		}
+	}
+}
+
+func init() {
+	register(Family{
+		Name: "delivery-kinds", Prop: "C10",
+		Rule: "the real binary on the same input bytes delivered as a regular file (compared with the model; reference of the Group), a named pipe (everything written before the binary reads / after it has started / a part before and the rest after), /dev/stdin named explicitly with stdin a pipe / a regular file / a pipe fed in two parts, standard input without a name (pipe, regular file, socket; /dev/null for nothing), as the first or the last of two named inputs, and -- content made up by the kernel, stat size 0 -- files below /proc/sys against a regular copy; inputs: JSONL, an array, one record, nothing, white space, truncated, a stray byte, scalars, 5 000 bytes, 70 000 bytes (more than a pipe holds), thorough 300 000; 6 programs (none prints $file; one same-name pair that does), rotating -o - / -o FILE / none, -f, -r: every delivery of a scenario must give the same exit status, stdout, diagnostic flag and -o file (Group), and what the model says for the bytes in a plain file of that name; non-trivial = the binary produced stdout, stderr or an -o file",
+		Gen:  c10DeliveryKinds,
+	})
+}
